@@ -164,6 +164,42 @@ pub proof fn lemma_mul_cancel(a: int, b: int, c: int)
     lemma_sub_zero_iff(a, b);
 }
 
+// ----- linear forms: with these the solver's own linear arithmetic decides every identity of the additive
+// group (commutativity, associativity, signs, subtraction) — no AC matching is involved ----------------
+pub broadcast proof fn lemma_add_linear(a: int, b: int)
+    requires inr(a), inr(b),
+    ensures #[trigger] fadd(a, b) == (if a + b < r() { a + b } else { a + b - r() })
+{
+    if a + b < r() { lemma_small_mod((a + b) as nat, r() as nat); }
+    else {
+        lemma_small_mod((a + b - r()) as nat, r() as nat);
+        lemma_mod_multiples_vanish(-1, a + b, r());
+    }
+}
+pub broadcast proof fn lemma_neg_linear(a: int)
+    requires inr(a),
+    ensures #[trigger] fneg(a) == (if a == 0 { 0 } else { r() - a })
+{
+    if a == 0 { lemma_mod_self_0(r()); } else { lemma_small_mod((r() - a) as nat, r() as nat); }
+}
+/// the products, seen as atoms by the linear arithmetic, related by: sign, distribution, re-association
+pub broadcast proof fn lemma_mul_neg_r(a: int, b: int)
+    ensures #[trigger] fmul(a, fneg(b)) == fneg(fmul(a, b))
+{ lemma_mul_neg(a, b); }
+pub broadcast proof fn lemma_mul_neg_l(a: int, b: int)
+    ensures #[trigger] fmul(fneg(a), b) == fneg(fmul(a, b))
+{ lemma_mul_comm(fneg(a), b); lemma_mul_neg(b, a); lemma_mul_comm(b, a); }
+pub broadcast proof fn lemma_distrib_l(a: int, b: int, c: int)
+    ensures #[trigger] fmul(fadd(b, c), a) == fadd(fmul(b, a), fmul(c, a))
+{ lemma_mul_comm(fadd(b, c), a); lemma_distrib(a, b, c); lemma_mul_comm(a, b); lemma_mul_comm(a, c); }
+/// what a rewritten but equivalent group / scalar expression needs: used inside the extracted functions
+pub broadcast group ring_auto {
+    lemma_range_add, lemma_range_mul, lemma_range_neg,
+    lemma_add_linear, lemma_neg_linear,
+    lemma_mul_comm, lemma_mul_neg_r, lemma_mul_neg_l, lemma_distrib, lemma_distrib_l,
+    lemma_mul_one, lemma_mul_zero,
+}
+
 pub broadcast group ring {
     lemma_range_add, lemma_range_mul, lemma_range_neg,
     lemma_add_comm, lemma_mul_comm,
